@@ -61,6 +61,20 @@ impl W {
         self.go(t0);
         self.e("]");
     }
+    /// dst += a*b*c ; t0,t1,t2 zero
+    pub fn mul3(&mut self, a: i64, b: i64, c: i64, dst: i64, t0: i64, t1: i64, t2: i64) {
+        self.copy(a, t0, t1);
+        self.go(t0);
+        self.e("[-");
+        self.copy(b, t2, t1);
+        self.go(t2);
+        self.e("[-");
+        self.copy(c, dst, t1);
+        self.go(t2);
+        self.e("]");
+        self.go(t0);
+        self.e("]");
+    }
     pub fn addk(&mut self, c: i64, k: i64) {
         self.go(c);
         for _ in 0..k.abs() {
@@ -590,16 +604,18 @@ pub struct WideProg {
 impl WideProg {
     pub fn render(&self) -> String {
         let n = self.n as i64;
-        let (t0, t1, cnt) = (2 * n, 2 * n + 1, 2 * n + 2);
+        let (t0, t1, cnt, t2) = (2 * n, 2 * n + 1, 2 * n + 2, 2 * n + 3);
         let mut w = W::new();
         for i in 0..n {
             let (kind, k) = self.init[i as usize % self.init.len()];
-            match kind % 4 {
-                0 | 2 => {
+            // mostly small values: the canonical run costs a step per unit of every cell value
+            match kind % 10 {
+                0 | 1 => {
                     w.go(i);
                     w.e(",")
                 }
-                1 => w.addk(i, 1 + (k % 4) as i64),
+                2 | 3 | 4 => w.addk(i, 1),
+                5 => w.addk(i, 1 + (k % 4) as i64),
                 _ => {}
             }
         }
@@ -631,7 +647,19 @@ impl WideProg {
             let a = (i + 1 + (u.a_off % 3) as i64) % n;
             let b = (i + 1 + (u.b_off % 4) as i64) % n;
             let k = 1 + (u.k % 3) as i64;
-            match u.f % 9 {
+            let c3 = (i + 2 + ((u.a_off + u.b_off) % 5) as i64) % n;
+            match u.f % 12 {
+                9 => w.mul3(a, b, c3, n + i, t0, t1, t2),
+                10 => {
+                    // a*a*b + k
+                    w.mul3(a, a, b, n + i, t0, t1, t2);
+                    w.addk(n + i, k);
+                }
+                11 => {
+                    // a*b*c - b
+                    w.mul3(a, b, c3, n + i, t0, t1, t2);
+                    w.copy_signed(b, n + i, t1, true);
+                }
                 0 => w.copy(a, n + i, t1),
                 1 => w.mul(a, b, n + i, t0, t1),
                 2 => {
@@ -690,9 +718,9 @@ impl WideProg {
 }
 
 pub fn wide_prog(big: bool) -> impl Strategy<Value = WideProg> {
-    let upd = (0u8..3, 0u8..4, 0u8..9, 0u8..3, prop_oneof![3 => Just(true), 1 => Just(false)]).prop_map(|(a_off, b_off, f, k, clear)| Upd { a_off, b_off, f, k, clear });
+    let upd = (0u8..3, 0u8..4, 0u8..12, 0u8..3, prop_oneof![3 => Just(true), 1 => Just(false)]).prop_map(|(a_off, b_off, f, k, clear)| Upd { a_off, b_off, f, k, clear });
     let bigs = if big { (0u8..20, 0u8..3, 0u8..6).prop_map(Some).boxed() } else { Just(None).boxed() };
-    (6u8..20, vec((0u8..4, 0u8..4), 20), any::<bool>(), 0u8..3, prop_oneof![3 => Just(true), 1 => Just(false)], 0u8..20, vec(upd, 1..20), proptest::option::weighted(0.3, 0u8..20), bigs)
+    (prop_oneof![1 => 6u8..10, 3 => 10u8..20], vec((0u8..10, 0u8..4), 20), any::<bool>(), 0u8..3, prop_oneof![3 => Just(true), 1 => Just(false)], 0u8..20, prop_oneof![1 => vec(upd.clone(), 1..8), 3 => vec(upd, 8..20)], proptest::option::weighted(0.3, 0u8..20), bigs)
         .prop_map(|(n, init, cnt_in, cnt_k, looped, start, upd, out_in_loop, big)| WideProg { n, init, cnt_in, cnt_k, looped, start, upd, out_in_loop, big })
 }
 
@@ -954,11 +982,12 @@ pub fn prog(mix: Mix) -> BoxedStrategy<ProgAst> {
 /// stream has its own share (end-of-input behaviour).
 pub fn input_bytes() -> BoxedStrategy<Vec<u8>> {
     let byte = prop_oneof![4 => 0u8..4, 1 => Just(255u8), 1 => Just(128u8), 3 => any::<u8>()];
-    prop_oneof![1 => Just(vec![]), 9 => vec(byte, 0..24)].boxed()
+    // half of the streams hold only small values: multiplication idioms stay short
+    prop_oneof![1 => Just(vec![]), 5 => vec(0u8..4, 0..24), 4 => vec(byte, 0..24)].boxed()
 }
 
 pub fn width() -> BoxedStrategy<u32> {
-    prop_oneof![Just(8u32), Just(16u32), Just(32u32), Just(64u32)].boxed()
+    prop_oneof![4 => Just(8u32), 2 => Just(16u32), 2 => Just(32u32), 2 => Just(64u32)].boxed()
 }
 
 /// Optimisation level: 0..3 plus representatives of "4+".
